@@ -58,7 +58,10 @@ CONSTANTS ProgFile,   \* JSON: sequence of programs
           MaxCalls,   \* public calls per history (resumptions not counted)
           Mode,       \* "ideal" | "cgen"
           Schedule,   \* "oneshot" | "split"
-          Fuel        \* steps per history
+          Fuel,       \* steps per history
+          CheckFacts  \* TRUE: a false fact / assert / loop condition ends the behaviour (FactsTrue, C02);
+                      \* FALSE: facts are not looked at, execution goes on to what the false fact would have "proven" safe
+                      \* (C01's monitor, and the exported histories of C04 / C05)
 
 Progs == JsonDeserialize(ProgFile)
 Lim == 1073741824     \* 2^30
@@ -521,7 +524,10 @@ Advance(fr) == [fr EXCEPT !.ctl[Len(fr.ctl)].pc = @ + 1, !.re = FALSE]
 PopCtl(fr) == [fr EXCEPT !.ctl = SubSeq(@, 1, Len(@) - 1)]
 PushCtl(fr, o, w) == [fr EXCEPT !.ctl = Append(@, [o |-> o, w |-> w, pc |-> 1])]
 
-Fault(s) == /\ fault' = s /\ mode' = "done"
+\* (a safety violation is reported with the statement that was being executed: "index@<node>")
+Fault(s) == /\ fault' = IF s.k = "viol" /\ mode = "run" /\ Len(stack) > 0 /\ ~AtEnd(Top)
+                         THEN [k |-> s.k, d |-> s.d \o "@" \o ToString(CurStmt(Top))] ELSE s
+            /\ mode' = "done"
             /\ UNCHANGED <<pi, th, stack, saved, src, dst, status, retv, disabled, active, ncalls, hist, fuel, pend>>
 
 FirstOf(S) == CHOOSE x \in S : TRUE
@@ -962,12 +968,12 @@ Step ==
                    \* the facts recorded before a `while` statement are those at its first entry
                    \* ... and the facts before a statement are not re-examined when the statement is re-entered
                    \* after a suspension inside it (they held when it was first reached)
-                   ff == IF n.hf = 1 /\ ~fr.re /\ ~(n.k = "While" /\ s \in fr.loops) /\ ~(n.k = "Iterate" /\ IterActive(fr, s)) THEN FalseFacts(s, C) ELSE {}
+                   ff == IF CheckFacts /\ n.hf = 1 /\ ~fr.re /\ ~(n.k = "While" /\ s \in fr.loops) /\ ~(n.k = "Iterate" /\ IterActive(fr, s)) THEN FalseFacts(s, C) ELSE {}
                IN IF ff # {} THEN Fault([k |-> "fact", d |-> ToString(s) \o ":" \o ToString(FirstOf(ff))])
                   ELSE CASE n.k = "Var" -> stack' = SetTop(Advance(fr)) /\ UNCHANGED <<pi, th, saved, src, dst, mode, status, retv, disabled, active, fault, ncalls, hist, pend>> /\ fuel' = fuel - 1
                          [] n.k = "Assert" ->
                               LET r == EvalTop(n.r, NoRc(C)) IN
-                              IF r.f = {} /\ r.v # 1 THEN Fault([k |-> "fact", d |-> "assert " \o ToString(s)])
+                              IF CheckFacts /\ r.f = {} /\ r.v # 1 THEN Fault([k |-> "fact", d |-> "assert " \o ToString(s)])
                               ELSE stack' = SetTop(Advance(fr)) /\ UNCHANGED <<pi, th, saved, src, dst, mode, status, retv, disabled, active, fault, ncalls, hist, pend>> /\ fuel' = fuel - 1
                          [] n.k = "Assign" ->
                               IF IsUserOrIOCall(n.r)
@@ -983,12 +989,12 @@ Step ==
                          [] n.k = "While" ->
                               LET c == EvalTop(n.m, NoRc(C))      \* (ranges cached in a loop condition belong to one proving site)
                                   first == s \notin fr.loops
-                                  badinv == FalseAsserts(s, IF first THEN {"inv", "pre"} ELSE {"inv"}, C)
+                                  badinv == IF CheckFacts THEN FalseAsserts(s, IF first THEN {"inv", "pre"} ELSE {"inv"}, C) ELSE {}
                               IN IF c.f # {} THEN Fault(FirstOf(c.f))
                                  ELSE IF badinv # {} THEN Fault([k |-> "fact", d |-> "loop " \o ToString(FirstOf(badinv))])
                                  ELSE IF c.v = 1
                                  THEN stack' = SetTop(PushCtl([fr EXCEPT !.loops = @ \cup {s}], s, "z")) /\ UNCHANGED <<pi, th, saved, src, dst, mode, status, retv, disabled, active, fault, ncalls, hist, pend>> /\ fuel' = fuel - 1
-                                 ELSE LET badpost == FalseAsserts(s, {"inv", "post"}, C) IN
+                                 ELSE LET badpost == IF CheckFacts THEN FalseAsserts(s, {"inv", "post"}, C) ELSE {} IN
                                       IF badpost # {} THEN Fault([k |-> "fact", d |-> "loop " \o ToString(FirstOf(badpost))])
                                       ELSE stack' = SetTop(Advance([fr EXCEPT !.loops = @ \ {s}])) /\ UNCHANGED <<pi, th, saved, src, dst, mode, status, retv, disabled, active, fault, ncalls, hist, pend>> /\ fuel' = fuel - 1
                          [] n.k = "Jump" ->
@@ -997,17 +1003,17 @@ Step ==
                                   fr1 == PopTo(fr, lp)
                                   fr2 == TrimIts(fr1, n.a = "continue")
                               IN IF n.a = "continue"
-                                 THEN LET badinv == IF isit THEN FalseAsserts(lp, {"inv", "pre"}, C) ELSE {} IN
+                                 THEN LET badinv == IF isit /\ CheckFacts THEN FalseAsserts(lp, {"inv", "pre"}, C) ELSE {} IN
                                       IF badinv # {} THEN Fault([k |-> "fact", d |-> "loop " \o ToString(FirstOf(badinv))])
                                       ELSE IF isit
                                       THEN \* `continue` of an iterate loop: the next iteration (the cursor advances)
                                            stack' = SetTop([fr2 EXCEPT !.its[Len(fr2.its)].pos = @ + Nd(lp).lo]) /\ UNCHANGED <<pi, th, saved, src, dst, mode, status, retv, disabled, active, fault, ncalls, hist, pend>> /\ fuel' = fuel - 1
                                       ELSE stack' = SetTop(fr2) /\ UNCHANGED <<pi, th, saved, src, dst, mode, status, retv, disabled, active, fault, ncalls, hist, pend>> /\ fuel' = fuel - 1
-                                 ELSE LET badpost == FalseAsserts(lp, {"post"}, C) IN
+                                 ELSE LET badpost == IF CheckFacts THEN FalseAsserts(lp, {"post"}, C) ELSE {} IN
                                       IF badpost # {} THEN Fault([k |-> "fact", d |-> "loop " \o ToString(FirstOf(badpost))])
                                       ELSE IF isit
                                       THEN \* `break` of an iterate loop leaves the whole statement (every round); the variables end empty
-                                           LET e == IterTop(fr1) IN
+                                           LET e == CHOOSE x \in { fr1.its[i] : i \in 1..Len(fr1.its) } : x.d = Len(fr1.ctl) IN
                                            stack' = SetTop(Advance(SetIterVars(fr2, e.ivs, 1, e.pos, 0))) /\ UNCHANGED <<pi, th, saved, src, dst, mode, status, retv, disabled, active, fault, ncalls, hist, pend>> /\ fuel' = fuel - 1
                                       ELSE stack' = SetTop(Advance([fr2 EXCEPT !.loops = @ \ {lp}])) /\ UNCHANGED <<pi, th, saved, src, dst, mode, status, retv, disabled, active, fault, ncalls, hist, pend>> /\ fuel' = fuel - 1
                          [] n.k = "Ret" ->
